@@ -168,6 +168,9 @@ def float_pairs_cell(args):
 REPLAYERS["cell:pairs"] = float_pairs_cell
 
 
+SHARDABLE = True
+
+
 def run(chk, only=None):
     import yadism.coefficient_functions as cf
     from yadism.coefficient_functions import coupling_constants as ccmod
@@ -190,6 +193,8 @@ def run(chk, only=None):
     raised = 0
     for cell in allc:
         if only and only != cell["rel"]:
+            continue
+        if not chk.mine(":".join(f"{k}={v}" for k, v in cell.items())):
             continue
         with Ctx(chk.seed) as ctx, cm.fixed_nf(), cm.generic_drop_empty(), stubs.cf_stubs():
             cname = ":".join(f"{k}={v}" for k, v in cell.items())
@@ -230,6 +235,8 @@ def run(chk, only=None):
                                     lambda lab, cell=cell: f"{cell['rel']}:{cell['obs']}:{lab}",
                                     sample={"cell": cell, "n_pairs": len(p.value), "first": [l for l, _, _ in p.value[:4]]})
     # eta_gammaZ ~ 1/(MZ2+Q2): eta*(MZ2+Q2) does not depend on MZ2  => eta -> 0 when the Z decouples
+    if not chk.first:
+        return chk.finish(explanation="shard of C13 (see the merged evidence)", rule="")
     with Ctx(chk.seed) as ctx:
         P = cm.ew_params(ctx)
         Q2 = ctx.var("Q2", 0, None, wlo=1, whi=2000)
